@@ -47,6 +47,10 @@ const errKey = "__c08_error__"
 
 // program: one jq program evaluating every query on `.` and on `tovalue`
 func program(qs []Query, prelude string) string {
+	return program0(qs) + prelude + "\n| [_c08run, (tovalue | _c08run)] | tojson\n"
+}
+
+func program0(qs []Query) string {
 	var sb strings.Builder
 	sb.WriteString("def _c08run: [\n")
 	for i, q := range qs {
@@ -56,8 +60,6 @@ func program(qs []Query, prelude string) string {
 		fmt.Fprintf(&sb, "  [try (%s) catch {%q: true}]", q.Text, errKey)
 	}
 	sb.WriteString("\n];\n")
-	sb.WriteString(prelude)
-	sb.WriteString("\n| [_c08run, (tovalue | _c08run)] | tojson\n")
 	return sb.String()
 }
 
@@ -76,7 +78,7 @@ func parseJ(dec *json.Decoder) J {
 		}
 		return jn("bool", "false")
 	case json.Number:
-		return jn("num", canonNum(string(t)))
+		return jnum(string(t))
 	case string:
 		return jn("str", t)
 	case json.Delim:
@@ -146,52 +148,70 @@ func hasGapKid(v *V) bool {
 }
 
 // selfCheck: decode directly with the real decode API and require the real tree to be the described one
-func selfCheck(root *V, bs []byte, nbits int64, sel bool) {
+func selfCheck(root *V, bs []byte, nbits int64, sel bool) string {
 	descr, _ := json.Marshal(root)
 	dv, _, err := decode.Decode(context.Background(), bitio.NewBitReader(bs, nbits), c08Group,
 		decode.Options{IsRoot: true, FillGaps: true, InArg: C08In{Descr: string(descr)}})
 	if dv == nil || err != nil {
-		kit.Fatalf("self check: decode failed: %v (%s)", err, descr)
+		return fmt.Sprintf("self check: decode failed: %v (%s)", err, descr)
 	}
 	got, ok := describe(dv, &descOpts{})
 	if !ok {
-		kit.Fatalf("self check: real tree cannot be described (%s)", descr)
+		return fmt.Sprintf("self check: real tree cannot be described (%s)", descr)
 	}
 	want := root
 	if sel { // only the value under test (an all-synthetic value leaves an empty buffer, which gets a 0-bit gap0)
 		want = &root.Kids[0]
 		if len(got.Kids) == 0 || got.Names[0] != "v" {
-			kit.Fatalf("self check: no field v (%s)", descr)
+			return fmt.Sprintf("self check: no field v (%s)", descr)
 		}
 		got = got.Kids[0]
 	}
 	if d := eqV(want, &got); d != "" {
 		g, _ := json.Marshal(got)
-		kit.Fatalf("self check: real tree differs from description: %s\n want %s\n got  %s", d, descr, g)
+		return fmt.Sprintf("self check: real tree differs from description: %s\n want %s\n got  %s", d, descr, g)
 	}
+	return ""
 }
 
 const chunk = 150
 
-func evalValues(qs []Query, vals []V, src string, out *kit.Out) {
-	for lo := 0; lo < len(vals); lo += chunk {
+// evalValues: strict = a description the real decoder does not reproduce is a machinery error (TLC-emitted values);
+// otherwise the value is skipped and counted (random values)
+func evalValues(qs []Query, vals0 []V, src string, out *kit.Out, strict bool) int {
+	type built struct {
+		c vcase
+		v *V
+	}
+	var all []built
+	skipped := 0
+	for i := range vals0 {
+		root, sel := rootOf(&vals0[i])
+		w := &bitw{}
+		encode(&root, w)
+		bs, n := w.bytes()
+		if msg := selfCheck(&root, bs, n, sel); msg != "" {
+			if strict {
+				kit.Fatalf("%s", msg)
+			}
+			skipped++
+			continue
+		}
+		ints := make([]int, len(bs))
+		for k, b := range bs {
+			ints[k] = int(b)
+		}
+		d, _ := json.Marshal(root)
+		all = append(all, built{vcase{Bytes: ints, NBits: n, Descr: string(d), Sel: sel}, &vals0[i]})
+	}
+	for lo := 0; lo < len(all); lo += chunk {
 		hi := lo + chunk
-		if hi > len(vals) {
-			hi = len(vals)
+		if hi > len(all) {
+			hi = len(all)
 		}
 		var cases []vcase
 		for i := lo; i < hi; i++ {
-			root, sel := rootOf(&vals[i])
-			w := &bitw{}
-			encode(&root, w)
-			bs, n := w.bytes()
-			selfCheck(&root, bs, n, sel)
-			ints := make([]int, len(bs))
-			for k, b := range bs {
-				ints[k] = int(b)
-			}
-			d, _ := json.Marshal(root)
-			cases = append(cases, vcase{Bytes: ints, NBits: n, Descr: string(d), Sel: sel})
+			cases = append(cases, all[i].c)
 		}
 		cj, _ := json.Marshal(cases)
 		prog := program(qs, `$cases[] | . as $c | ($c.bytes | tobytes | tobits | .[0:$c.nbits] | verif_c08({descr: $c.descr}))
@@ -206,9 +226,10 @@ func evalValues(qs []Query, vals []V, src string, out *kit.Out) {
 			kit.Fatalf("fq produced %d lines for %d values", len(lines), hi-lo)
 		}
 		for i, line := range lines {
-			emitPairs(qs, &vals[lo+i], src, parseLine(line), out)
+			emitPairs(qs, all[lo+i].v, src, parseLine(line), out)
 		}
 	}
+	return skipped
 }
 
 func emitPairs(qs []Query, v *V, src string, j J, out *kit.Out) {
@@ -258,13 +279,14 @@ func main() {
 	case "eval":
 		qs, vals := readCases(os.Args[2])
 		out := kit.NewOut(os.Args[3])
-		evalValues(qs, vals, "gen", out)
+		evalValues(qs, vals, "gen", out, true)
 		out.Close()
 	case "rand":
 		n := kit.Atoi(os.Args[2])
 		qs, _ := readCases(os.Args[3])
 		out := kit.NewOut(os.Args[4])
-		evalValues(qs, randValues(n), "rand", out)
+		sk := evalValues(qs, randValues(n), "rand", out, false)
+		fmt.Printf("{\"skipped\":%d}\n", sk)
 		out.Close()
 	case "corpus":
 		qs, _ := readCases(os.Args[3])
@@ -279,7 +301,7 @@ func main() {
 		qs, vals := readCases(os.Args[2])
 		tmp := os.Args[2] + ".events"
 		out := kit.NewOut(tmp)
-		evalValues(qs, vals, "explore", out)
+		evalValues(qs, vals, "explore", out, true)
 		out.Close()
 		kit.Cases(tmp, func(_ int, raw []byte) {
 			var e Event
@@ -313,6 +335,8 @@ func plain(j J) any {
 		return json.RawMessage("{" + strings.Join(ps, ",") + "}")
 	case "str":
 		return j.S
+	case "num":
+		return json.RawMessage(numText(j))
 	}
 	return json.RawMessage(j.S)
 }
@@ -345,9 +369,9 @@ func short(v *V) string {
 		}
 		return "[" + strings.Join(p, ",") + "]"
 	}
-	s := v.Kind + "(" + v.A.S
+	s := v.Kind + "(" + numText(v.A)
 	if v.Sym.T != "none" {
-		s += "~" + v.Sym.T + ":" + v.Sym.S
+		s += "~" + v.Sym.T + ":" + numText(v.Sym)
 	}
 	if v.Gap {
 		s += " gap"
